@@ -331,8 +331,33 @@ func MergedMenu(pairs int) []Merged {
 			a := v[pi[0]]
 			out = append(out, Merged{Name: name([]Part{a, f}), Parts: []Part{a, f}, K: "last"})
 		}
+		// a searchable tag edit of a feature that references others (the seed
+		// path, area, relation: the edit copies a base feature into an overlay,
+		// whose reverse references then guard the failing part), then the
+		// failing part
+		for _, a := range ReferrerTagParts() {
+			out = append(out, Merged{Name: name([]Part{a, f}), Parts: []Part{a, f}, K: "last"})
+		}
 	}
 	return out
+}
+
+// ReferrerTagParts: removal and addition of searchable tags on the seed's
+// referencing features.
+func ReferrerTagParts() []Part {
+	untag := func(n string, id b6.FeatureID, key string) Part {
+		return Part{Name: "untag[" + n + " " + key + "]", IsTag: true, TagID: id, Make: func() ingest.Change {
+			return ingest.RemoveTags{{ID: id, Key: key}}
+		}}
+	}
+	return []Part{
+		untag("a0", Ar(0), "#building"),
+		untag("w0", Wy(0), "#highway"),
+		untag("r0", Rl(0), "#route"),
+		{Name: "tag[a0 #shop=x]", IsTag: true, TagID: Ar(0), Make: func() ingest.Change {
+			return ingest.AddTags{{ID: Ar(0), Tag: b6.Tag{Key: "#shop", Value: b6.NewStringExpression("x")}}}
+		}},
+	}
 }
 
 // ModelApply runs the change on the model: returns the index of the first
